@@ -530,7 +530,7 @@ class SgzReader(object):
         else:
             if not 0 <= min_cd_idx < max_cd_len:
                 raise IndexError(self.range_error.format(min_cd_idx, 0, max_cd_len-1))
-            if not 0 < max_cd_idx <= max_cd_len:
+            if not min_cd_idx < max_cd_idx <= max_cd_len:
                 raise IndexError(self.range_error.format(max_cd_idx, 1, max_cd_len))
             cd_len = max_cd_idx - min_cd_idx
 
@@ -596,7 +596,7 @@ class SgzReader(object):
         else:
             if not 0 <= min_ad_idx < max_ad_len:
                 raise IndexError(self.range_error.format(min_ad_idx, 0, max_ad_len-1))
-            if not 0 < max_ad_idx <= max_ad_len:
+            if not min_ad_idx < max_ad_idx <= max_ad_len:
                 raise IndexError(self.range_error.format(max_ad_idx, 1, max_ad_len))
             ad_len = max_ad_idx - min_ad_idx
 
